@@ -487,6 +487,8 @@ impl<'a> Run<'a> {
         let Ok(mut file) = fatal::create_file(&path) else {
             return
         };
+        #[cfg(feature = "verif-hooks")]
+        crate::verif::point("fs.status_write", || path.display().to_string());
         if let Err(err) = StoredStatus::new(now()).write(&mut file) {
             error!(
                 "Failed to write store status file {}: {}",
@@ -829,6 +831,10 @@ impl StoredPoint {
             header.update_status = UpdateStatus::LastAttempt(now());
 
             drop(file);
+            #[cfg(feature = "verif-hooks")]
+            crate::verif::point("fs.point_truncate", || {
+                path.display().to_string()
+            });
             let mut file = File::create(&path).map_err(|err| {
                 error!(
                     "Failed to update stored publication point at {}: \
@@ -847,6 +853,10 @@ impl StoredPoint {
                 );
                 return Err(Failed)
             }
+            #[cfg(feature = "verif-hooks")]
+            crate::verif::point("fs.point_header_write", || {
+                path.display().to_string()
+            });
             if let Err(err) = header.write(&mut file) {
                 error!(
                     "Failed to update stored publication point at {}: \
@@ -899,6 +909,8 @@ impl StoredPoint {
         if let Some(path) = path.parent() {
             fatal::create_dir_all(path)?;
         }
+        #[cfg(feature = "verif-hooks")]
+        crate::verif::point("fs.point_create", || path.display().to_string());
         let mut file = match File::create(&path) {
             Ok(file) => file,
             Err(err) => {
@@ -909,6 +921,10 @@ impl StoredPoint {
                 return Err(Failed)
             }
         };
+        #[cfg(feature = "verif-hooks")]
+        crate::verif::point("fs.point_header_write", || {
+            path.display().to_string()
+        });
         let header = StoredPointHeader::new(
             manifest_uri.clone(), rpki_notify.cloned(),
         );
@@ -988,6 +1004,8 @@ impl StoredPoint {
 
         self.header.update_status = UpdateStatus::Success(now());
 
+        #[cfg(feature = "verif-hooks")]
+        crate::verif::point("fs.tmp_write", || "header");
         if let Err(err) = self.header.write(&mut tmp_file) {
             error!(
                 "Fatal: failed to write to file {}: {}",
@@ -1013,6 +1031,8 @@ impl StoredPoint {
             }
         };
         while let Some(object) = objects()? {
+            #[cfg(feature = "verif-hooks")]
+            crate::verif::point("fs.tmp_write", || "object");
             if let Err(err) = object.write(&mut tmp_file) {
                 error!(
                     "Fatal: failed to write to file {}: {}",
@@ -1034,8 +1054,16 @@ impl StoredPoint {
         // I think we need to drop `self.file` first so it gets closed and the
         // path unlocked on Windows?
         drop(self.file.take());
+        #[cfg(feature = "verif-hooks")]
+        crate::verif::point("fs.persist", || self.path.display().to_string());
         match tmp_file.persist(&self.path) {
-            Ok(file) => self.file = Some(BufReader::new(file)),
+            Ok(file) => {
+                #[cfg(feature = "verif-hooks")]
+                crate::verif::point("fs.persisted", || {
+                    self.path.display().to_string()
+                });
+                self.file = Some(BufReader::new(file))
+            }
             Err(err) => {
                 error!(
                     "Failed to persist temporary file {} to {}: {}",
@@ -1072,6 +1100,10 @@ impl StoredPoint {
         self.manifest = None;
         self.file = None;
 
+        #[cfg(feature = "verif-hooks")]
+        crate::verif::point("fs.point_truncate", || {
+            self.path.display().to_string()
+        });
         let mut file = match File::create(&self.path) {
             Ok(file) => file,
             Err(err) => {
@@ -1082,6 +1114,10 @@ impl StoredPoint {
                 return Err(Failed)
             }
         };
+        #[cfg(feature = "verif-hooks")]
+        crate::verif::point("fs.point_header_write", || {
+            self.path.display().to_string()
+        });
         if let Err(err) = self.header.write(&mut file) {
             error!(
                 "Failed to write stored publication point at {}: {}",
